@@ -68,6 +68,8 @@ Record ucase := {
   uc_dir : bytes;                 (* the dir string handed to UnpackSquashed* *)
   uc_target : path;               (* physical path of the designated directory *)
   uc_max : Z; uc_passes : nat; uc_errret : bool;
+  uc_ignore : bool;               (* SymlinkResolution = SymlinkIgnore *)
+  uc_cwd : path;                  (* working directory of the harness process *)
   uc_squash_failed : bool;        (* UnpackSquashed: SaveToTarball failed before unpack() ran *)
   uc_init : fsmap;
   uc_entries : list entry;
@@ -79,7 +81,7 @@ Record ucase := {
 
 Definition uc_cfg (c : ucase) : ucfg :=
   {| u_dir := uc_dir c; u_max := uc_max c; u_passes := uc_passes c;
-     u_err_return := uc_errret c; u_marker := MARK |}.
+     u_err_return := uc_errret c; u_ignore := uc_ignore c; u_cwd := uc_cwd c; u_marker := MARK |}.
 
 Definition uc_model (c : ucase) : fsmap * bool :=
   if uc_squash_failed c then (uc_init c, true)
